@@ -24,6 +24,7 @@
 (*    by URI while the hash stays on the name -- refuted on the pairs.     *)
 (*    KeyMode = "json_text" (history/MC_Encoding_key_json_text.cfg).       *)
 (*    DecodeMode = "redump" (history/MC_Encoding_decode_redump.cfg).       *)
+(*    HashMode = "geometry_json" (history/MC_Encoding_hash_geometry_json.cfg)*)
 (*    HashMode = "note_iso" (history/MC_Encoding_hash_note_iso.cfg), KeyMode*)
 (*    = "declared_fields" (history/MC_Encoding_key_declared_fields.cfg).   *)
 (*    EqMode = "nan_equal" (history/MC_Encoding_eq_nan.cfg): NaN features  *)
@@ -150,6 +151,8 @@ FinalHash(who, x) == IF HashMode = "memo"
                           (IF c.cls <= 3 THEN <<(IF who = 1 THEN c.px ELSE c.py) = Explicit>> ELSE <<>>)
                      ELSE IF HashMode = "note_iso"        \* Note: the hash also sees how created_on is spelled
                      THEN HashKey("code", c.cls, x, who) \o (IF c.cls = 4 THEN <<x[4]>> ELSE <<>>)
+                     ELSE IF HashMode = "geometry_json"   \* SoundEvent: the hash also sees how the coordinates are spelled
+                     THEN HashKey("code", c.cls, x, who) \o (IF c.cls = 5 THEN <<x[2]>> ELSE <<>>)
                      ELSE IF HashMode = "extras_order"    \* ... or the order in which its extra attributes were given
                      THEN HashKey("code", c.cls, x, who) \o
                           (LET m == (IF who = 1 THEN c.px ELSE c.py).mode
